@@ -617,3 +617,115 @@ func init() {
 		},
 	})
 }
+
+func init() {
+	register(&Rule{
+		ID: "C10-g", Template: "T4 permit-cut (merge starts from the ref's current value)",
+		Doc: "A merge moves a branch relative to its own head: in every function of cmd/wrgl that computes a merge base and writes a ref directly, the write lies behind the 'equal' edge of a bytes.Equal test between the current value of that same ref (ref.GetRef / GetHead / Store.Get on the written name) and a merge input. Without it `wrgl merge main~1 other` treats an ancestor of main as 'the branch' and fast-forwards main to a commit that does not descend from main's head.",
+		Min: 1,
+		Run: func(p *Program, r *RuleResult) error {
+			c, err := newC10(p)
+			if err != nil {
+				return err
+			}
+			sca, err := p.MustFuncs("pkg/ref.SeekCommonAncestor")
+			if err != nil {
+				return err
+			}
+			fns := p.FuncsInPkg("cmd/wrgl")
+			r.Analysed = len(fns)
+			for _, fn := range fns {
+				if len(callsTo(fn, sca)) == 0 {
+					continue
+				}
+				for _, s := range c.sites(fn) {
+					ci, ok := s.in.(ssa.CallInstruction)
+					if !ok {
+						continue
+					}
+					f := calleeFunc(ci)
+					if f == nil || f.Name() != "SaveRef" {
+						continue // wrappers that build the name themselves are out of this rule's reach
+					}
+					args := ci.Common().Args
+					if len(args) < 3 {
+						continue
+					}
+					name := args[1]
+					key := s.key + "|from-current-head"
+					what := "merge writes the branch only after checking that the merged-into commit is the branch's current head"
+					// current value of the same ref
+					var heads []ssa.Value
+					eachCall(fn, func(g ssa.CallInstruction) {
+						gf := calleeFunc(g)
+						if gf == nil || !c.oldGetters[gf] {
+							return
+						}
+						gargs := g.Common().Args
+						nameArg := gargs[len(gargs)-1]
+						if g.Common().IsInvoke() {
+							nameArg = gargs[0]
+						}
+						if !sameObject(nameArg, name) {
+							return
+						}
+						if call, ok := g.(*ssa.Call); ok {
+							for _, ref := range *call.Referrers() {
+								if ex, ok := ref.(*ssa.Extract); ok && ex.Index == 0 {
+									heads = append(heads, ex)
+								}
+							}
+						}
+					})
+					if len(heads) == 0 {
+						r.bad(key, p.Rel(ci.Pos()), what, "the function never reads the current value of the ref it writes")
+						continue
+					}
+					hset := forward(heads, fwdOpts{noBinOp: true})
+					var eq []ssa.Value
+					eachCall(fn, func(e ssa.CallInstruction) {
+						ef := calleeFunc(e)
+						if ef == nil || ef.Pkg() == nil || ef.Pkg().Path() != "bytes" || ef.Name() != "Equal" {
+							return
+						}
+						a := e.Common().Args
+						if len(a) == 2 && (hset[a[0]] || hset[a[1]]) {
+							if v, ok := e.(*ssa.Call); ok {
+								eq = append(eq, v)
+							}
+						}
+					})
+					cut := mkCut(boolEdges(fn, forward(eq, fwdOpts{noBinOp: true}), true))
+					if len(cut) == 0 {
+						r.bad(key, p.Rel(ci.Pos()), what, "the ref's current value is read but never compared with a merge input")
+						continue
+					}
+					if path, reach := reachAfter(fn, nil, ci, cut, nil); reach {
+						r.bad(key, p.Rel(ci.Pos()), what, fmtPath("the ref write is reachable without passing the 'current head equals the merged-into commit' edge", path))
+					} else {
+						r.ok(key, p.Rel(ci.Pos()), what)
+					}
+				}
+			}
+			return nil
+		},
+	})
+	register(&Rule{
+		ID: "C10-h", Template: "T5 error-drop (old value of a gated ref)",
+		Doc: "The update gate knows the ref's real previous value: in the functions that gate ref updates (scope of C10-a) the error of the old-value getter (ref.GetRef / GetHead / …) is examined — a store failure must not make an existing ref look new, which would skip the ancestor/force/tag gate.",
+		Min: 1,
+		Run: func(p *Program, r *RuleResult) error {
+			c, err := newC10(p)
+			if err != nil {
+				return err
+			}
+			fns := c.scope()
+			r.Analysed = len(fns)
+			for _, fn := range fns {
+				runErrorDrop(p, r, []*ssa.Function{fn}, func(f *types.Func) bool { return c.oldGetters[f] }, nil)
+			}
+			r.Analysed = len(fns)
+			return nil
+		},
+	})
+}
